@@ -481,6 +481,73 @@ pub fn literals() -> Vec<Lit> {
             address: false,
         });
     }
+    // ---- strings: every body up to length 4 over the characters that matter for escapes, decoded by a reference decoder
+    {
+        fn decode(body: &[char], quote: char, hex: usize) -> Option<String> {
+            let mut out = String::new();
+            let mut i = 0;
+            while i < body.len() {
+                let c = body[i];
+                if c == quote {
+                    return None; // ends the literal early: what follows is not a constant
+                }
+                if c != '$' {
+                    out.push(c);
+                    i += 1;
+                    continue;
+                }
+                let e = *body.get(i + 1)?;
+                i += 2;
+                match e {
+                    '$' => out.push('$'),
+                    '\'' => out.push('\''),
+                    '"' => out.push('"'),
+                    'L' | 'l' | 'N' | 'n' => out.push('\n'),
+                    'P' | 'p' => out.push('\u{c}'),
+                    'R' | 'r' => out.push('\r'),
+                    'T' | 't' => out.push('\t'),
+                    h if h.is_ascii_hexdigit() => {
+                        let mut code = h.to_digit(16)?;
+                        for _ in 1..hex {
+                            let d = body.get(i)?.to_digit(16)?;
+                            code = code * 16 + d;
+                            i += 1;
+                        }
+                        out.push(char::from_u32(code)?);
+                    }
+                    _ => return None,
+                }
+            }
+            Some(out)
+        }
+        let alpha: [char; 9] = ['$', '4', '1', 'N', 'a', '\u{e9}', '\u{1F600}', '\'', '"'];
+        let mut level: Vec<Vec<char>> = vec![vec![]];
+        for _len in 0..4 {
+            let mut next = vec![];
+            for b in &level {
+                for a in alpha {
+                    let mut v = b.clone();
+                    v.push(a);
+                    next.push(v);
+                }
+            }
+            for body in &next {
+                // only bodies with an escape and something else are new here
+                if !body.contains(&'$') {
+                    continue;
+                }
+                for (quote, hex, ty) in [('\'', 2usize, "STRING"), ('"', 4usize, "WSTRING")] {
+                    let text: String = body.iter().collect();
+                    let expect = match decode(body, quote, hex) {
+                        Some(v) => Expect::Value(n("Str", vec![("v", s(&v))])),
+                        None => Expect::Reject("the body is not a sequence of characters and escapes of table 5/6"),
+                    };
+                    out.push(Lit { label: "string/dollar-escape".to_string(), type_text: ty, pieces: vec![format!("{}{}{}", quote, text, quote)], expect, address: false });
+                }
+            }
+            level = next;
+        }
+    }
     // ---- direct addresses
     for loc in ["I", "Q", "M"] {
         for (size, sname) in [("", "Nil"), ("X", "X"), ("B", "B"), ("W", "W"), ("D", "D"), ("L", "L")] {
